@@ -51,7 +51,7 @@ def build(spec, budget=20000):
               budget=budget, none_state=spec.get("none_state"), none_mode=spec.get("none_mode", "all"))
     use(t, spec["family"])
     kw = {}
-    if spec["host"] == "queued" and spec["family"] == "plain":
+    if (spec["host"] == "queued" and spec["family"] == "plain") or spec["host"] == "queued_off":
         kw["instrumented"] = False
     h = new_host(spec["host"], **kw)
     return t, h
